@@ -23,16 +23,18 @@ const (
 	round      = uint32(2)
 )
 
-// block ids: index 0 = nil, 1 = A, 2 = B, 3 = A' (same hash and part-set hash as A, other total)
+// block ids: index 0 = nil, 1 = A and its three single-component siblings: 2 = B (other block
+// hash, same part-set header), 3 = A' (other part-set total), 4 = A^ (other part-set root hash)
 const (
 	bNil = iota
 	bA
 	bB
 	bAp
+	bAr
 	nBlk
 )
 
-var blkName = [nBlk]string{"nil", "A", "B", "A'"}
+var blkName = [nBlk]string{"nil", "A", "B", "A'", "A^"}
 
 func fill(b byte) (h [32]byte) {
 	for i := range h {
@@ -44,8 +46,9 @@ func fill(b byte) (h [32]byte) {
 var refIDs = [nBlk]refBlockID{
 	{Nil: true},
 	{Hash: fill(0xa1), PartsHash: fill(0xa2), Total: 3},
-	{Hash: fill(0xb1), PartsHash: fill(0xb2), Total: 2},
+	{Hash: fill(0xb1), PartsHash: fill(0xa2), Total: 3},
 	{Hash: fill(0xa1), PartsHash: fill(0xa2), Total: 4},
+	{Hash: fill(0xa1), PartsHash: fill(0xa3), Total: 3},
 }
 
 func repoID(id refBlockID) types.BlockID {
@@ -250,7 +253,7 @@ var validKinds = []struct {
 	kind    string
 	blk     int
 	variant int
-}{{"A", bA, 0}, {"B", bB, 0}, {"A'", bAp, 0}, {"nil", bNil, 0}, {"A~", bA, 1}}
+}{{"A", bA, 0}, {"B", bB, 0}, {"A'", bAp, 0}, {"nil", bNil, 0}, {"A~", bA, 1}, {"A^", bAr, 0}}
 
 var invalidKinds = []string{"!oob", "!mis", "!imp", "!out", "!fake", "!h", "!r", "!t", "!chain", "!sig", "!64"}
 
